@@ -119,7 +119,7 @@ class FileReader(AbstractReader):
 
                 if os.path.exists(f) and os.path.isfile(f):
                     try:
-                        mtime = os.stat(f)[8]
+                        mtime = os.stat(f).st_mtime
 
                         debug.logger & debug.flagReader and debug.logger(
                             'source MIB %s mtime is %s, fetching data...' % (
